@@ -41,10 +41,12 @@ def heurG (a b : Cell) : NV K :=
 theorem distG_val (a b : Cell) : (distG a b : NV K) = some (Trig.sqrt (sqK a b)) := by
   unfold distG argEnv sqK
   ksimp [distance]
+  try (congr 1; ring)
 
 theorem heurG_val (a b : Cell) : (heurG a b : NV K) = some (Trig.sqrt (sqK a b)) := by
   unfold heurG argEnv sqK
   ksimp [heuristic]
+  try (congr 1; ring)
 
 /-- what is assumed of `np.sqrt` on non-negative arguments -/
 structure SqrtOk (K : Type) [Field K] [LinearOrder K] [IsStrictOrderedRing K] [Trig K] : Prop where
@@ -155,18 +157,18 @@ theorem isInside_generated (h w : Nat) (c : Cell) :
 
 def b2n (b : Bool) : NV K := some (if b then 1 else 0)
 
-def vecOf (bars : List (NV K)) : String → List (NV K) := fun n => if n = notCrossableList then bars else []
+def vecOf (bars : List (NV K)) : String → List (NV K) := fun n => if n = "barriers" then bars else []
 
 /-- `not _is_not_crossable(data[c], barriers)` by the generated condition -/
 def crossG (dataV : Cell → NV K) (bars : List (NV K)) (c : Cell) : Bool :=
-  !(notCrossable.eval ⟨envOf [(notCrossableValue, dataV c)], fun _ _ _ => none, vecOf bars⟩)
+  !(notCrossable.eval ⟨envOf [("value", dataV c)], fun _ _ _ => none, vecOf bars⟩)
 
 def relaxEnv (e : Env K) (dataV : Cell → NV K) (u off : Cell) (st : St K) : String → NV K :=
   let v : Cell := (u.1 + off.1, u.2 + off.2)
-  envOf [ (uRow, some (u.1:K)), (uCol, some (u.2:K)), (offRow, some (off.1:K)), (offCol, some (off.2 : K)),
-          (rows, some (e.h : K)), (cols, some (e.w:K)), ("goal_py", some (e.goal.1:K)), ("goal_px", some (e.goal.2 : K)),
-          ("data@v", dataV v), ("is_closed@v", b2n (st.isClosed v)), ("is_open@v", b2n (st.isOpen v)),
-          ("d_from_start@u", some (st.g u)), ("d_from_start@v", some (st.g v)), ("cost@v", some (st.f v))]
+  envOf [ ("u_y", some (u.1:K)), ("u_x", some (u.2:K)), ("off_y", some (off.1:K)), ("off_x", some (off.2 : K)),
+          ("rows", some (e.h : K)), ("cols", some (e.w:K)), ("goal_y", some (e.goal.1:K)), ("goal_x", some (e.goal.2 : K)),
+          ("data@v", dataV v), ("closed@v", b2n (st.isClosed v)), ("open@v", b2n (st.isOpen v)),
+          ("g@u", some (st.g u)), ("g@v", some (st.g v)), ("f@v", some (st.f v))]
 
 /-- the bounds test of the neighbour loop, over the field -/
 theorem outside_iff (h w : Nat) (u off : Cell) :
@@ -188,7 +190,7 @@ theorem outside_iff (h w : Nat) (u off : Cell) :
 theorem crossG_false_iff (dataV : Cell → NV K) (bars : List (NV K)) (c : Cell) :
     crossG dataV bars c = false ↔ (Fl.isnan (dataV c) = true ∨ ∃ x ∈ bars, Fl.eq x (dataV c) = true) := by
   unfold crossG
-  simp [notCrossable, notCrossableValue, C.eval, E.eval, envOf, vecOf, notCrossableList]
+  simp [notCrossable, C.eval, E.eval, envOf, vecOf]
   cases Fl.isnan (dataV c) <;> simp
 
 /-- the state a `continue`-free pass of the neighbour loop leaves: `v` opened with parent `u`, new `g`, `f` -/
@@ -203,20 +205,26 @@ theorem relax_generated (e : Env K) (wt hh : Cell → Cell → K) (hx : e.ops = 
     s'.failed = none ∧
     (s'.halted = true → relax e u st off = st) ∧
     (s'.halted = false →
-      ∃ g f, s'.env "d_from_start@v" = some g ∧ s'.env "cost@v" = some f ∧ s'.env "is_open@v" = some 1 ∧
-        s'.env "parent_ys@v" = some (u.1 : K) ∧ s'.env "parent_xs@v" = some (u.2 : K) ∧
+      ∃ g f, s'.env "g@v" = some g ∧ s'.env "f@v" = some f ∧ s'.env "open@v" = some 1 ∧
+        s'.env "par_y@v" = some (u.1 : K) ∧ s'.env "par_x@v" = some (u.2 : K) ∧
         relax e u st off = relaxed st u (u.1 + off.1, u.2 + off.2) g f) := by
   intro s'
+  -- the inlined `_distance` / `_heuristic` calls, in the form evaluation gives them, are the kernels' values
+  have h1 := distG_val (K := K) u (u.1 + off.1, u.2 + off.2)
+  unfold distG argEnv at h1
+  simp [Kernel.cell, S.exec, E.eval, C.eval, CmpOp.eval, BinOp.eval, UnOp.eval, setVar, Fill.val, envOf, distance] at h1
+  have h2 := heurG_val (K := K) (u.1 + off.1, u.2 + off.2) e.goal
+  unfold heurG argEnv at h2
+  simp [Kernel.cell, S.exec, E.eval, C.eval, CmpOp.eval, BinOp.eval, UnOp.eval, setVar, Fill.val, envOf, heuristic] at h2
   have hw := hwt u (u.1 + off.1, u.2 + off.2)
   have hh' := hhh (u.1 + off.1, u.2 + off.2) e.goal
-  simp [sqK] at hw hh'
   cases hin : inside e.h e.w (u.1 + off.1, u.2 + off.2) with
   | false =>
     have hb := (outside_iff (K := K) e.h e.w u off).mpr hin
     have hs : s'.halted = true ∧ s'.failed = none := by
       simp only [s']
       unfold relaxEnv
-      ksimp [relaxBody, uRow, uCol, offRow, offCol, rows, cols, vecOf, notCrossableList, b2n, hb]
+      ksimp [relaxBody, vecOf, b2n, hb]
     refine ⟨hs.2, fun _ => ?_, fun h => by rw [hs.1] at h; cases h⟩
     unfold relax
     simp [hin]
@@ -228,7 +236,7 @@ theorem relax_generated (e : Env K) (wt hh : Cell → Cell → K) (hx : e.ops = 
       have hs : s'.halted = true ∧ s'.failed = none := by
         simp only [s']
         unfold relaxEnv
-        ksimp [relaxBody, uRow, uCol, offRow, offCol, rows, cols, vecOf, notCrossableList, b2n, hb, hnc]
+        ksimp [relaxBody, vecOf, b2n, hb, hnc]
       refine ⟨hs.2, fun _ => ?_, fun h => by rw [hs.1] at h; cases h⟩
       unfold relax
       simp [hin, hcr]
@@ -242,7 +250,7 @@ theorem relax_generated (e : Env K) (wt hh : Cell → Cell → K) (hx : e.ops = 
         have hs : s'.halted = true ∧ s'.failed = none := by
           simp only [s']
           unfold relaxEnv
-          ksimp [relaxBody, uRow, uCol, offRow, offCol, rows, cols, vecOf, notCrossableList, b2n, hb, hnc, hcl]
+          ksimp [relaxBody, vecOf, b2n, hb, hnc, hcl]
         refine ⟨hs.2, fun _ => ?_, fun h => by rw [hs.1] at h; cases h⟩
         unfold relax
         simp [hin, hcr, hcl]
@@ -254,24 +262,24 @@ theorem relax_generated (e : Env K) (wt hh : Cell → Cell → K) (hx : e.ops = 
           have hs : s'.halted = true ∧ s'.failed = none := by
             simp only [s']
             unfold relaxEnv
-            ksimp [relaxBody, uRow, uCol, offRow, offCol, rows, cols, vecOf, notCrossableList, b2n, hb, hnc, hcl, hsk.1, hsk2]
+            ksimp [relaxBody, vecOf, b2n, hb, hnc, hcl, hsk.1, hsk2, h1, h2]
           refine ⟨hs.2, fun _ => ?_, fun h => by rw [hs.1] at h; cases h⟩
           unfold relax
           simp [hin, hcr, hcl, hx, fieldOps, hsk.1, hsk.2]
         · have hs : s'.halted = false ∧ s'.failed = none ∧
-              s'.env "d_from_start@v" = some (st.g u + wt u (u.1 + off.1, u.2 + off.2)) ∧
-              s'.env "cost@v" = some (st.g u + wt u (u.1 + off.1, u.2 + off.2) + hh (u.1 + off.1, u.2 + off.2) e.goal) ∧
-              s'.env "is_open@v" = some 1 ∧ s'.env "parent_ys@v" = some (u.1 : K) ∧ s'.env "parent_xs@v" = some (u.2 : K) := by
+              s'.env "g@v" = some (st.g u + wt u (u.1 + off.1, u.2 + off.2)) ∧
+              s'.env "f@v" = some (st.g u + wt u (u.1 + off.1, u.2 + off.2) + hh (u.1 + off.1, u.2 + off.2) e.goal) ∧
+              s'.env "open@v" = some 1 ∧ s'.env "par_y@v" = some (u.1 : K) ∧ s'.env "par_x@v" = some (u.2 : K) := by
             rw [hw, hh']
             simp only [s']
             unfold relaxEnv
             cases hop : st.isOpen (u.1 + off.1, u.2 + off.2) with
             | false =>
-              ksimp [relaxBody, uRow, uCol, offRow, offCol, rows, cols, vecOf, notCrossableList, b2n, hb, hnc, hcl, hop]
+              ksimp [relaxBody, vecOf, b2n, hb, hnc, hcl, hop, h1, h2]
             | true =>
               have hnlt : ¬ st.g (u.1 + off.1, u.2 + off.2) < st.g u + wt u (u.1 + off.1, u.2 + off.2) := fun h => hsk ⟨hop, h⟩
               rw [hw] at hnlt
-              ksimp [relaxBody, uRow, uCol, offRow, offCol, rows, cols, vecOf, notCrossableList, b2n, hb, hnc, hcl, hop, hnlt]
+              ksimp [relaxBody, vecOf, b2n, hb, hnc, hcl, hop, hnlt, h1, h2]
           refine ⟨hs.2.1, ⟨fun h => (by rw [hs.1] at h; cases h), fun _ => ⟨_, _, hs.2.2.1, hs.2.2.2.1, hs.2.2.2.2.1, hs.2.2.2.2.2.1, hs.2.2.2.2.2.2, ?_⟩⟩⟩
           unfold relax relaxed
           have : (st.isOpen (u.1 + off.1, u.2 + off.2) && decide (st.g (u.1 + off.1, u.2 + off.2) < st.g u + wt u (u.1 + off.1, u.2 + off.2))) = false := by
@@ -292,7 +300,7 @@ def readAcc (env : String → NV K) : NV K × NV K × NV K := (env "best_y", env
 
 def minEnv (st : St K) (acc : Option Cell × K) (c : Cell) : String → NV K :=
   envOf [("best_y", (accVars acc).1), ("best_x", (accVars acc).2.1), ("min_cost", (accVars acc).2.2),
-         ("i", some (c.1 : K)), ("j", some (c.2 : K)), ("is_open@c", b2n (st.isOpen c)), ("cost@c", some (st.f c))]
+         ("i", some (c.1 : K)), ("j", some (c.2 : K)), ("open@c", b2n (st.isOpen c)), ("f@c", some (st.f c))]
 
 /-- one iteration of the scan of `_min_cost_pixel_id` is `minStep` -/
 theorem minStep_generated (e : Env K) (wt hh : Cell → Cell → K) (hx : e.ops = fieldOps wt hh) (st : St K)
@@ -344,14 +352,14 @@ def Val.finiteOrNaN : Val → Prop
 /-- **the generated `_is_not_crossable` is the model's barrier test** on NaN and finite values:
     NaN, or equal (as real numbers) to one of the listed values -/
 theorem notCrossable_generated (v : Val) (bars : List Val) (hv : v.finiteOrNaN) (hb : ∀ b ∈ bars, b.finiteOrNaN) :
-    notCrossable.eval ⟨envOf [(notCrossableValue, (valNV v : NV K))], fun _ _ _ => none, vecOf (bars.map valNV)⟩
+    notCrossable.eval ⟨envOf [("value", (valNV v : NV K))], fun _ _ _ => none, vecOf (bars.map valNV)⟩
       = notCrossableV v bars := by
   cases v with
-  | nan => simp [notCrossable, notCrossableValue, C.eval, E.eval, envOf, valNV, notCrossableV]
+  | nan => simp [notCrossable, C.eval, E.eval, envOf, valNV, notCrossableV]
   | pinf => exact hv.elim
   | ninf => exact hv.elim
   | fin q =>
-    simp only [notCrossable, notCrossableValue, C.eval, E.eval, envOf, vecOf, notCrossableList, valNV, notCrossableV]
+    simp only [notCrossable, C.eval, E.eval, envOf, vecOf, valNV, notCrossableV]
     simp
     induction bars with
     | nil => simp
@@ -377,7 +385,7 @@ theorem notCrossable_generated (v : Val) (bars : List Val) (hv : v.finiteOrNaN) 
 theorem crossG_true_iff (dataV : Cell → NV K) (bars : List (NV K)) (c : Cell) :
     crossG dataV bars c = true ↔ (Fl.isnan (dataV c) = false ∧ ∀ x ∈ bars, Fl.eq x (dataV c) = false) := by
   unfold crossG
-  simp [notCrossable, notCrossableValue, C.eval, E.eval, envOf, vecOf, notCrossableList]
+  simp [notCrossable, C.eval, E.eval, envOf, vecOf]
 theorem sqK_sqDist (a b : Cell) : (sqK a b : K) = ((sqDist a b : Int) : K) := by
   unfold sqK sqDist; push_cast; ring
 
@@ -406,8 +414,10 @@ theorem snapStep_generated (hs : SqrtOk K) (dataV : Cell → NV K) (bars : List 
     s'.env "min_distance" = some (if acc' = acc then md else Trig.sqrt (((sqDist c p : Int)) : K)) ∧
     snapInitInf = true ∧ snapRowMajor = true := by
   intro s' acc'
-  have hsq : Trig.sqrt (((c.2 : K) - (p.2 : K)) * ((c.2 : K) - (p.2 : K)) + ((c.1 : K) - (p.1 : K)) * ((c.1 : K) - (p.1 : K)))
-      = Trig.sqrt (((sqDist c p : Int)) : K) := by rw [← sqK_sqDist]; rfl
+  have hsq := distG_val (K := K) c p
+  unfold distG argEnv at hsq
+  simp [Kernel.cell, S.exec, E.eval, C.eval, CmpOp.eval, BinOp.eval, UnOp.eval, setVar, Fill.val, envOf, distance] at hsq
+  rw [sqK_sqDist] at hsq
   cases hcr : crossG dataV bars c with
   | false =>
     have hnc : ¬ (Fl.isnan (dataV c) = false ∧ ∀ x ∈ bars, Fl.eq x (dataV c) = false) := fun h => by
@@ -416,7 +426,7 @@ theorem snapStep_generated (hs : SqrtOk K) (dataV : Cell → NV K) (bars : List 
     rw [ha]
     simp only [s']
     unfold snapEnv
-    refine ⟨?_, ?_, ?_, rfl, rfl⟩ <;> ksimp [snapBody, vecOf, notCrossableList, hnc]
+    refine ⟨?_, ?_, ?_, rfl, rfl⟩ <;> ksimp [snapBody, vecOf, hnc]
   | true =>
     have hnc1 := ((crossG_true_iff dataV bars c).mp hcr).1
     have hnc : (∀ x ∈ bars, Fl.eq x (dataV c) = false) = True := eq_true ((crossG_true_iff dataV bars c).mp hcr).2
@@ -425,11 +435,10 @@ theorem snapStep_generated (hs : SqrtOk K) (dataV : Cell → NV K) (bars : List 
       have ha : acc' = some (c, sqDist c p) := by simp only [acc', nearStep, hcr]; rfl
       rw [ha]
       simp only at hacc
-      unfold sqK at hacc
-      rw [hsq] at hacc
+      rw [sqK_sqDist] at hacc
       simp only [s']
       unfold snapEnv nearVars
-      refine ⟨?_, ?_, ?_, rfl, rfl⟩ <;> ksimp [snapBody, vecOf, notCrossableList, hnc1, hnc, hacc, hsq]
+      refine ⟨?_, ?_, ?_, rfl, rfl⟩ <;> ksimp [snapBody, vecOf, hnc1, hnc, hacc, hsq]
     | some cm =>
       obtain ⟨c0, m⟩ := cm
       obtain ⟨hm0, hmd⟩ := hacc
@@ -444,19 +453,19 @@ theorem snapStep_generated (hs : SqrtOk K) (dataV : Cell → NV K) (bars : List 
         have hlt' := hlt.mpr hd
         simp only [s']
         unfold snapEnv nearVars
-        refine ⟨?_, ?_, ?_, rfl, rfl⟩ <;> ksimp [snapBody, vecOf, notCrossableList, hnc1, hnc, hsq, hlt']
+        refine ⟨?_, ?_, ?_, rfl, rfl⟩ <;> ksimp [snapBody, vecOf, hnc1, hnc, hsq, hlt']
       · have ha : acc' = some (c0, m) := by simp only [acc', nearStep, hcr, hd]; simp
         rw [ha]
         have hlt' : ¬ Trig.sqrt (((sqDist c p : Int)) : K) < md := fun h => hd (hlt.mp h)
         simp only [s']
         unfold snapEnv nearVars
-        refine ⟨?_, ?_, ?_, rfl, rfl⟩ <;> ksimp [snapBody, vecOf, notCrossableList, hnc1, hnc, hsq, hlt']
+        refine ⟨?_, ?_, ?_, rfl, rfl⟩ <;> ksimp [snapBody, vecOf, hnc1, hnc, hsq, hlt']
 
 /-- the queried cell is returned unchanged exactly when it is crossable -/
 theorem snapKeep_generated (dataV : Cell → NV K) (bars : List (NV K)) (p : Cell) :
     snapKeep.eval ⟨envOf [("data@p", dataV p)], fun _ _ _ => none, vecOf bars⟩ = crossG dataV bars p := by
   unfold crossG
-  simp [snapKeep, notCrossable, notCrossableValue, C.eval, E.eval, envOf]
+  simp [snapKeep, notCrossable, C.eval, E.eval, envOf]
 
 end XrsVerif.AStar
 
